@@ -41,6 +41,10 @@ import Proofs.FormatStageLex
 
 import Proofs.FormatCall2Lex
 
+
+
+import Proofs.FormatPipeParse
+
 namespace Props.C09
 open Martian.Format
 
@@ -954,5 +958,194 @@ theorem stage_near_misses :
   set_option maxRecDepth 100000 in decide +kernel
 
 end StageDeclarations
+
+/-! ## Whole pipeline declarations, including the reordering of calls
+
+Model `Martian.FormatPipe`: `Pipeline.format` (format_callable.go), `directDepsMap` / `topoSort`
+(compile_pipelines.go), the production `pipeline` (grammar.y).  `callEdges` is `directDepsMap` on
+positions, `sortCalls` is `Pipeline.Calls` after `topoSort()` (unchanged when `directDepsMap`
+reports an error or `addNextDeps` a cycle), `fmtPipeline` prints the sorted calls.  Tied to the
+real code by harness/c09pipe.go: the model's text with the calls in SOURCE order, fed to the real
+`FormatSrcBytes`, gives the model's `fmtPipeline` byte for byte. -/
+section PipelineDeclarations
+open Martian.FormatExp Martian.FormatCall Martian.FormatCall2 Martian.FormatPipe
+
+/-- **The closure is the least one.**  The dependency relation `topoSort` sorts by is contained
+in every transitive relation on the calls that contains the direct dependencies: the `for
+changes` loop of `addNextDeps` adds nothing but consequences of transitivity.  (With
+`closedDeps_contains_edges` and `closedDeps_transitive`: it IS the transitive closure.) -/
+theorem closedDeps_least (n : Nat) (edges : List (Nat × Nat)) (R : Nat → Nat → Prop)
+    (hE : ∀ a b, a < n → b < n → (a, b) ∈ edges → R a b)
+    (htr : ∀ a b c, a < n → b < n → c < n → R a b → R b c → R a c)
+    (a b : Nat) (ha : a < n) (hb : b < n) (h : closedDeps n edges a b = true) : R a b :=
+  closedDeps_least' n edges R hE htr a b ha hb h
+
+/-- non-vacuity: the relation "a < b" contains the chain and is transitive; the closure of the
+chain is exactly it (`closedDeps_transitive` example above), while the total relation also
+satisfies the hypotheses and is strictly larger -/
+example : closedDeps 5 [(0, 1), (1, 2), (2, 3), (3, 4)] 0 4 = true ∧
+    closedDeps 5 [(0, 1), (1, 2), (2, 3), (3, 4)] 4 0 = false := by decide
+
+/-- **A sorted arrangement stays where it is.**  If `L` arranges the calls `0 … n-1` in
+dependency order (closed relation of `edges`), and `edges'` are dependencies between positions of
+`L` that all come from `edges`, then `topoSort` on the positions moves nothing — whether or not
+`edges'` is cyclic. -/
+theorem topoSort_of_sorted_arrangement (n : Nat) (edges edges' : List (Nat × Nat)) (L : List Nat)
+    (hp : L.Perm (List.range n)) (hs : sortedFrom (closedDeps n edges) L = true)
+    (he : ∀ i j, i < n → j < n → (i, j) ∈ edges' → (L.getD i 0, L.getD j 0) ∈ edges) :
+    topoSort n edges' = List.range n :=
+  topoSort_relabel n edges edges' L hp hs he
+
+/-- **`directDepsMap` on positions.**  Call `a` depends on call `b` iff a binding value or a
+modifier binding value of `a` holds a reference (kind call) to an id which `callMap` resolves to
+`b` (the last call with that id). -/
+theorem callEdges_spec (cs : List Call2) (a b : Nat) :
+    (a, b) ∈ callEdges cs ↔ ∃ c, cs[a]? = some c ∧ ∃ x ∈ callRefs c, lastPos x cs = some b :=
+  mem_callEdges cs a b
+
+/-- **The reordering is a permutation** of the calls of the pipeline (any pipeline: errors,
+cycles, duplicate ids included). -/
+theorem sortCalls_perm (pid : List UInt8) (cs : List Call2) : (sortCalls pid cs).Perm cs :=
+  sortCalls_perm' pid cs
+
+/-- **The reordering respects dependencies.**  When `directDepsMap` reports no error and there
+is no cycle, no call is printed before a call whose id it refers to (distinct call ids). -/
+theorem sortCalls_respects_deps (pid : List UInt8) (cs : List Call2) (hd : distinctCallIds cs = true)
+    (herr : depsError pid cs = false) (hcyc : callCycle cs = false)
+    (A B : List Call2) (c : Call2) (hl : sortCalls pid cs = A ++ c :: B) :
+    ∀ c' ∈ B, c'.id ∉ callRefs c :=
+  sortCalls_respects_deps' pid cs hd herr hcyc A B c hl
+
+/-- **The reordering is idempotent** (distinct call ids; errors and cycles included), and it
+commutes with the normal form of the calls (the normal form keeps ids and references). -/
+theorem sortCalls_idempotent (pid : List UInt8) (cs : List Call2) (hd : distinctCallIds cs = true) :
+    sortCalls pid (sortCalls pid cs) = sortCalls pid cs ∧
+      sortCalls pid (cs.map normCall2) = (sortCalls pid cs).map normCall2 :=
+  ⟨sortCalls_idem pid cs hd, sortCalls_norm pid cs⟩
+
+/-- **Round trip, whole pipeline**: for every well-formed pipeline, whatever the order of its
+calls, the printed text reads back as the pipeline with its calls in `topoSort` order, each in
+normal form. -/
+theorem parse_format_pipeline (p : Pipeline) (hw : wfPipeline p = true) :
+    parsePipeline (fmtPipeline p) = some (normPipeline p) :=
+  parsePipeline_fmtPipeline p hw
+
+/-- the same followed by any text (the next declaration of the file) -/
+theorem parse_format_pipeline_in_context (p : Pipeline) (rest : List UInt8) (ts : List Tok)
+    (hw : wfPipeline p = true) (hrest : lexAll rest = some ts) :
+    (lexAll (fmtPipeline p ++ rest)).bind pPipeline = some (normPipeline p, ts) :=
+  pPipeline_fmtPipeline p rest ts hw hrest
+
+/-- **Idempotent, whole pipeline**: printing what was read back gives the same text.  (The
+printed calls are in `topoSort` order; the second `topoSort` sees the relabelled dependency
+graph and moves nothing: `topoSort_of_sorted_arrangement`, by `closedDeps_least`.) -/
+theorem format_pipeline_idem (p : Pipeline) (hw : wfPipeline p = true) :
+    fmtPipeline (normPipeline p) = fmtPipeline p :=
+  fmtPipeline_norm p hw
+
+/-- the normal form is well formed and a fixed point -/
+theorem normPipeline_stable (p : Pipeline) (hw : wfPipeline p = true) :
+    wfPipeline (normPipeline p) = true ∧ normPipeline (normPipeline p) = normPipeline p :=
+  normPipeline_stable' p hw
+
+/-- `format ∘ parse ∘ format = format` -/
+theorem format_parse_format_pipeline (p q : Pipeline) (hw : wfPipeline p = true)
+    (hq : parsePipeline (fmtPipeline p) = some q) : fmtPipeline q = fmtPipeline p := by
+  rw [parse_format_pipeline p hw] at hq
+  injection hq with hq
+  rw [← hq]
+  exact format_pipeline_idem p hw
+
+/-- **The formatter on calls in any order.**  The text of a well-formed pipeline with its calls
+in SOURCE order reads as that pipeline (calls in source order, each in normal form), and
+formatting what was read gives `fmtPipeline p`. -/
+theorem format_source_order (p : Pipeline) (hw : wfPipeline p = true) :
+    ∃ q, parsePipeline (fmtPipelineRaw p) = some q ∧ fmtPipeline q = fmtPipeline p :=
+  ⟨_, parsePipeline_fmtPipelineRaw p hw, fmtPipeline_of_raw p hw⟩
+
+/-- the printed pipeline lexes as `toksPipeline p`, whatever text follows -/
+theorem lex_format_pipeline (p : Pipeline) (rest : List UInt8) (hw : wfPipeline p = true) :
+    lexAll (fmtPipeline p ++ rest) = (lexAll rest).map (toksPipeline p ++ ·) :=
+  Martian.FormatCall2.lexAll_of_lexOK (lexOK_fmtPipeline p hw) rest
+
+/-- the token-level reader on the tokens of the printed pipeline, followed by any tokens -/
+theorem read_pipeline (p : Pipeline) (rest : List Tok) (hw : wfPipeline p = true) :
+    pPipeline (toksPipeline p ++ rest) = some (normPipeline p, rest) :=
+  pPipeline_toks p rest hw
+
+/-- the pipeline of the examples: `pipeline P(in int a, out int r "h",)` with the calls, in
+source order, `map call C(x = split B.o, * = self,) using (disabled = A.d,)`,
+`call local B(y = [A.o],)`, `call A(z = self.a,)`, `return (r = C.o,)`, `retain (C.o,)` -/
+def samplePipeline : Pipeline :=
+  ⟨[0x50],
+    [⟨⟨⟨[Martian.FormatDecl.sInt], 0, 0⟩, [0x61], [], []⟩, false⟩],
+    [⟨⟨⟨[Martian.FormatDecl.sInt], 0, 0⟩, [0x72], [0x68], []⟩, true⟩],
+    ⟨[⟨[0x43], [0x43], [⟨[0x78], true, .ref false [0x42] [[0x6F]]⟩], some (.ref true [] []),
+        ⟨false, false, false, [(sDisabled, .ref false [0x41] [[0x64]])]⟩⟩,
+      ⟨[0x42], [0x42], [⟨[0x79], false, .arr [.ref false [0x41] [[0x6F]]]⟩], none, ⟨true, false, false, []⟩⟩,
+      ⟨[0x41], [0x41], [⟨[0x7A], false, .ref true [0x61] []⟩], none, noMods⟩],
+     ⟨[⟨[0x72], false, .ref false [0x43] [[0x6F]]⟩], none⟩,
+     some [.ref false [0x43] [[0x6F]]]⟩⟩
+
+/-- non-vacuity: a well-formed pipeline whose three calls must all move: `C` depends on `B`
+through a split binding and on `A` through `disabled = A.d`, `B` on `A` through an array;
+`self.a` and the wildcard `* = self` are no dependencies.  The reader on the tokens of the
+printed pipeline returns the normal form (calls `A, B, C`); on the tokens of the text in source
+order it returns the calls in source order. -/
+example :
+    wfPipeline samplePipeline = true ∧
+    callEdges samplePipeline.body.calls = [(0, 1), (0, 2), (1, 2)] ∧
+    depsError samplePipeline.id samplePipeline.body.calls = false ∧
+    callCycle samplePipeline.body.calls = false ∧
+    (sortCalls samplePipeline.id samplePipeline.body.calls).map (·.id) = [[0x41], [0x42], [0x43]] ∧
+    (pPipeline (toksPipeline samplePipeline ++ [.reserved sPipeline])).map
+        (fun x => (toksPipeline x.1, x.2)) =
+      some (toksPipeline (normPipeline samplePipeline), [.reserved sPipeline]) ∧
+    (pPipeline (toksPipelineRaw samplePipeline)).map (fun x => x.1.body.calls.map (·.id)) =
+      some [[0x43], [0x42], [0x41]] ∧
+    toksPipeline (normPipeline samplePipeline) ≠ toksPipelineRaw samplePipeline := by decide +kernel
+
+/-- Negative witnesses.  (1) a dependency cycle: the calls are printed in source order;
+(2) a pipeline that calls itself: `directDepsMap` returns an error, nothing is reordered although
+`B` refers to the later `A`; (3) a call bound to its own output: the same; (4) a reference to an
+id no call has is no dependency, nor is `self.A`; (5) with duplicate ids the LAST call wins
+(`callMap`), and such a pipeline is outside `wfPipeline`; (6) a pipeline without calls is read
+(second alternative of the production) and printed; (7) `return` is required, `retain` comes
+after it, outputs come after inputs. -/
+theorem pipeline_near_misses :
+    let call (id : List UInt8) (refs : List (List UInt8)) : Call2 :=
+      ⟨id, id, refs.map (fun r => ⟨[0x78], false, .ref false r [[0x6F]]⟩), none, noMods⟩
+    let ids (cs : List Call2) : List (List UInt8) := cs.map (·.id)
+    -- (1) call A(x = B.o)  call B(x = A.o)
+    callCycle [call [0x41] [[0x42]], call [0x42] [[0x41]]] = true ∧
+    depsError [0x50] [call [0x41] [[0x42]], call [0x42] [[0x41]]] = false ∧
+    ids (sortCalls [0x50] [call [0x41] [[0x42]], call [0x42] [[0x41]]]) = [[0x41], [0x42]] ∧
+    -- (2) call B(x = A.o)  call A()  call P()      inside pipeline P / inside pipeline Q
+    depsError [0x50] [call [0x42] [[0x41]], call [0x41] [], call [0x50] []] = true ∧
+    ids (sortCalls [0x50] [call [0x42] [[0x41]], call [0x41] [], call [0x50] []]) = [[0x42], [0x41], [0x50]] ∧
+    ids (sortCalls [0x51] [call [0x42] [[0x41]], call [0x41] [], call [0x50] []]) = [[0x41], [0x42], [0x50]] ∧
+    -- (3) call B(x = A.o)  call A(x = A.o)
+    depsError [0x50] [call [0x42] [[0x41]], call [0x41] [[0x41]]] = true ∧
+    ids (sortCalls [0x50] [call [0x42] [[0x41]], call [0x41] [[0x41]]]) = [[0x42], [0x41]] ∧
+    -- (4) call B(x = Z.o)  /  self.A
+    callEdges [call [0x42] [[0x5A]], call [0x41] []] = [] ∧
+    callEdges [⟨[0x42], [0x42], [⟨[0x78], false, .ref true [0x41] []⟩], none, noMods⟩, call [0x41] []] = [] ∧
+    -- (5) call B(x = A.o)  call A()  call A()
+    callEdges [call [0x42] [[0x41]], call [0x41] [], call [0x41] []] = [(0, 2)] ∧
+    distinctCallIds [call [0x42] [[0x41]], call [0x41] [], call [0x41] []] = false ∧
+    -- (6) pipeline P() { return () }
+    (pPipeline [.reserved sPipeline, .id [0x50], .punct 0x28, .punct 0x29, .punct 0x7B, .reserved sReturn,
+      .punct 0x28, .punct 0x29, .punct 0x7D]).map (fun x => (x.1.body.calls.length, x.2)) = some (0, []) ∧
+    wfPipeline ⟨[0x50], [], [], ⟨[], ⟨[], none⟩, none⟩⟩ = true ∧
+    -- (7) pipeline P() { }   /   … { retain () return () }   /   pipeline P(out int r, in int a,) { return () }
+    (pPipeline [.reserved sPipeline, .id [0x50], .punct 0x28, .punct 0x29, .punct 0x7B, .punct 0x7D]).isNone = true ∧
+    (pPipeline [.reserved sPipeline, .id [0x50], .punct 0x28, .punct 0x29, .punct 0x7B, .id sRetain, .punct 0x28,
+      .punct 0x29, .reserved sReturn, .punct 0x28, .punct 0x29, .punct 0x7D]).isNone = true ∧
+    (pPipeline [.reserved sPipeline, .id [0x50], .punct 0x28, .reserved Martian.FormatDecl.sOut,
+      .reserved Martian.FormatDecl.sInt, .id [0x72], .punct 0x2C, .reserved Martian.FormatDecl.sIn,
+      .reserved Martian.FormatDecl.sInt, .id [0x61], .punct 0x2C, .punct 0x29, .punct 0x7B, .reserved sReturn,
+      .punct 0x28, .punct 0x29, .punct 0x7D]).isNone = true := by decide +kernel
+
+end PipelineDeclarations
 
 end Props.C09
